@@ -60,7 +60,7 @@ class Ctx:
         """fail closed when an anchor count falls below what was confirmed by hand"""
         ok = count >= minimum
         self.ob(rule, what, "floor>=%d" % minimum, ok, found=count, expected=">= %d" % minimum,
-                why="anchor count below the number confirmed on the pinned tree: the rule would pass vacuously",
+                why="anchor count far below the number confirmed on the pinned tree (floors are about half of it, so that a refactoring that merges call sites stays silent): the rule would pass vacuously",
                 nontrivial=False)
         return ok
 
